@@ -156,7 +156,7 @@ C06 = codec_check("C06", "C06", "model_checking",
                  "the lenient-client clause is checked at wire level (C02)"])
 
 
-C04 = codec_check("C04", "C04", "model_checking",
+_C04_codec = codec_check("C04", "C04", "model_checking",
     rule="exhaustive enumeration of hostile inputs, each run through every reading program (19 hand-written Reader programs covering every Read*/Skip/RawBytes/ReadInterface/RawRecord combination + generated unmarshalers): (1) every string of <=L symbols over the ROR2 delimiter alphabet via NewRor2Reader and as a ParseQueryParams value, and whole as a query string; (2) every sequence of <=L JSON tokens; (3) every truncation and every single-byte deletion / substitution / insertion (22 bytes) of the reference encodings of the base and rich value of every wrapper in json/header/query, fed to the schema's own unmarshaler; (4) Go value trees of depth<=2 through NewInterfaceReader; the oracle is: the call returns (no panic; a 90 s no-progress watchdog flags hangs); states = inputs, transitions = decoder runs; failures are identified by the panic site in the library",
     assumptions=["coverage-guided mutation beyond the exhaustive bounds is sampling, a different technique family, and is not done",
                  "HTTP-level robustness (path, query, headers, tunnelled bodies, client-side responses) is the wire-level part of this check"])
@@ -375,3 +375,42 @@ def C20(sc, tier, replay, t0):
     merged["fail_count"] = merged.get("fail_count", 0) + len(failures)
     kw["rule"] = kw["rule"] + "; plus, for every schema set of the C12 grammar that has hand-written custom typeref files (v2), the real generator run flat, again over its own output, and with the package-root layout: the files are located (no <Type>.gr.go generated beside them), left byte-identical, and the generated tree is reproduced exactly"
     return D.finish("C20", tier, "model_checking", merged, t0, **kw)
+
+
+def C04(sc, tier, replay, t0):
+    """C04 = reader-level robustness (codec harness) + HTTP-level robustness of server and client (wire harness, part C04H)."""
+    if replay:
+        rp = json.load(open(replay)).get("replay") or {}
+        if rp.get("part") == "C04H":
+            gen = rp.get("gen", "v2")
+            uni = rp.get("universe", "resources-quick")
+            binary = D.build_with_bindings(sc, gen, "wire", uni, resources=True)
+            return subprocess.run([binary, "-gen", gen, "-replay", replay], env=dict(D.goenv(), VERIF_UNIVERSE=uni)).returncode
+        return _C04_codec(sc, tier, replay, t0)
+    captured = {}
+    orig_finish = D.finish
+    def fake_finish(prop, tier_, level, merged, t0_, **kw):
+        captured["merged"], captured["kw"] = merged, kw
+        return 0
+    D.finish = fake_finish
+    try:
+        _C04_codec(sc, tier, None, t0)
+    finally:
+        D.finish = orig_finish
+    merged, kw = captured["merged"], captured["kw"]
+    uni = "resources-quick"  # the R-universe's 14 resources are enough here; thorough lengthens the strings
+    reports = []
+    for gen in ("v2", "root"):
+        binary = D.build_with_bindings(sc, gen, "wire", uni, resources=True)
+        reports += D.run_shards(binary, gen, tier, max(1, D.NCPU // 2), os.path.join(sc.dir, "out-http"), extra_args=["-part", "C04H"],
+                                env={"VERIF_UNIVERSE": uni}, deadline=(3000 if tier == "thorough" else 600), tag="-http")
+    m2 = D.merge_reports(reports)
+    for k, v in m2["sub"].items():
+        merged["sub"][k] = v
+    merged["failures"] += m2["failures"]
+    merged["failures"].sort(key=lambda f: f["sig"])
+    merged["fail_count"] = merged.get("fail_count", 0) + m2.get("fail_count", 0)
+    merged["exhaustive"] = merged["exhaustive"] and m2["exhaustive"]
+    merged["capped"] += m2["capped"]
+    kw["rule"] = kw["rule"] + "; (HTTP level) the valid request of every method of every resource with every short ROR2 string as extra / whole query and as key segment, every truncation / single-byte edit of query and JSON body, header variants, replayed raw against the real server: never a panic, 5xx or stack trace, and 4xx without resource invocation whenever the reference parser rejects the query / body; the valid response with every truncation / single-byte edit of its body and id / location / error-header / status / content-type variants fed to the generated client: the call returns, never panics"
+    return D.finish("C04", tier, "model_checking", merged, t0, **kw)
